@@ -128,8 +128,49 @@ func restride(img image.Image) image.Image {
 		c := *m
 		c.Pix, c.Stride = move(m.Pix, m.Stride, m.Rect.Dx(), m.Rect.Dy(), 1)
 		return &c
+	case *image.YCbCr:
+		c := *m
+		restrideYCbCr(&c)
+		return &c
+	case *image.NYCbCrA:
+		// luma, chroma and alpha planes each get a stride of their own (an alpha plane borrowed
+		// from a wider mask, or a decoder that pads luma to a multiple of 16, looks like this)
+		c := *m
+		restrideYCbCr(&c.YCbCr)
+		rows := m.Rect.Dy()
+		ns := m.Rect.Dx() + 5
+		a := make([]uint8, ns*rows+1)
+		for y := 0; y < rows; y++ {
+			copy(a[y*ns:y*ns+m.Rect.Dx()], m.A[y*m.AStride:y*m.AStride+m.Rect.Dx()])
+		}
+		c.A, c.AStride = a, ns
+		return &c
 	}
 	return img
+}
+
+// restrideYCbCr gives the luma plane a stride of width+3 and the chroma planes chroma-width+2
+// (whole images at the origin only: the planes are re-laid out from what At() would read).
+func restrideYCbCr(c *image.YCbCr) {
+	w, h := c.Rect.Dx(), c.Rect.Dy()
+	if w == 0 || h == 0 {
+		return
+	}
+	ys := w + 3
+	ny := make([]uint8, ys*h)
+	for y := 0; y < h; y++ {
+		copy(ny[y*ys:y*ys+w], c.Y[y*c.YStride:y*c.YStride+w])
+	}
+	// chroma plane height = len / stride of the original
+	ch := len(c.Cb) / c.CStride
+	cw := c.CStride
+	cs := cw + 2
+	ncb, ncr := make([]uint8, cs*ch), make([]uint8, cs*ch)
+	for y := 0; y < ch; y++ {
+		copy(ncb[y*cs:y*cs+cw], c.Cb[y*cw:(y+1)*cw])
+		copy(ncr[y*cs:y*cs+cw], c.Cr[y*cw:(y+1)*cw])
+	}
+	c.Y, c.YStride, c.Cb, c.Cr, c.CStride = ny, ys, ncb, ncr, cs
 }
 
 func planesOf(img image.Image) [][]uint8 {
